@@ -28,10 +28,10 @@ theorem foldl_idxStep (rows : List Row) (e : Int) (idx : List Int) :
   induction rows generalizing e idx with
   | nil => simp [rowsLength, sumInts, cumEnds]
   | cons r rs ih =>
-    simp only [List.foldl_cons, idxStep, ih, cumEnds, rowsLength, List.map_cons, sumInts, List.append_assoc,
-      List.singleton_append]
+    rw [List.foldl_cons, show idxStep r (e, idx) = (e + r.length, idx ++ [e + r.length]) from rfl, ih]
+    simp only [cumEnds, rowsLength, List.map_cons, sumInts, List.append_assoc, List.cons_append,
+      List.nil_append]
     congr 1
-    unfold rowsLength
     omega
 
 /-! ### append_scaffold -/
@@ -54,7 +54,7 @@ theorem lexLe2_key_eq_lexLe :
     · have : ¬ a.start = b.start := by omega
       simp [h1, h2, this]
     · have : a.start = b.start := by omega
-      simp [h1, h2, this]
+      simp [this]
 
 /-- `l[:-1]` -/
 theorem slice_none_neg_one {α : Type} (l : List α) : PyRt.slice l none (some (-1)) = l.dropLast := by
@@ -66,7 +66,11 @@ theorem slice_none_neg_one {α : Type} (l : List α) : PyRt.slice l none (some (
   | nil => simp
   | cons x xs =>
     simp only [List.length_cons]
-    split <;> omega
+    have h0 : (-1 : Int) < 0 := by decide
+    have h : ¬ ((-1 : Int) + ((xs.length + 1 : Nat) : Int) < 0) := by omega
+    simp only [h0, if_true]
+    rw [if_neg h]
+    omega
 
 theorem pyGet_nat {α : Type} (l : List α) (k : Nat) (x : α) (h : l[k]? = some x) : pyGet l (k : Int) = .ok x := by
   have hk : k < l.length := by
@@ -76,7 +80,8 @@ theorem pyGet_nat {α : Type} (l : List α) (k : Nat) (x : α) (h : l[k]? = some
   unfold pyGet
   have h1 : ¬ ((k : Int) < 0) := by omega
   have h2 : ¬ ((k : Int) < 0 ∨ (l.length : Int) ≤ (k : Int)) := by omega
-  simp only [h1, h2, if_false, Int.toNat_natCast, h]
+  simp only [h1, if_false, Int.toNat_natCast, h, false_or]
+  rw [if_neg (show ¬ ((l.length : Int) ≤ (k : Int)) by omega)]
 
 /-- consecutive pairs `(l[i], l[i+1])` -/
 def consPairs {α : Type} (l : List α) : List (α × α) := l.zip (l.drop 1)
@@ -104,16 +109,16 @@ theorem forIn_enum_next {α σ ρ : Type} (L : List α) (step : α → α → σ
     have hpy : pyGet L ((k : Int) + 1) = .ok y := by
       have := pyGet_nat L (k + 1) y hget
       simpa using this
-    have hzip : consPairs (x :: xs ++ [z]) = (x, y) :: consPairs (xs ++ [z]) := by
+    have hzip : consPairs (x :: (xs ++ [z])) = (x, y) :: consPairs (xs ++ [z]) := by
       unfold consPairs
-      cases hxs : xs ++ [z] with
-      | nil => simp at hxs
+      generalize xs ++ [z] = t at hy
+      cases t with
+      | nil => simp at hy
       | cons w ws =>
-        rw [hxs] at hy
         simp only [List.length_cons, Nat.zero_lt_succ, List.getElem?_eq_getElem, List.getElem_cons_zero,
           Option.some.injEq] at hy
         subst hy
-        simp [List.drop]
+        simp
     simp only [PyRt.enumerateFrom, PyRt.forIn, hbody (k : Int) x y s hpy]
     have hk : ((k : Int) + 1) = ((k + 1 : Nat) : Int) := by omega
     rw [hk, ih (k + 1) hL']
@@ -168,7 +173,7 @@ theorem foldl_qcStep (pairs : List (Fragment × Fragment)) (s : Int × Int × Li
 
 /-- the second loop (`for … in pairs_with_gaps: msg += …`) -/
 theorem foldl_const_true {α : Type} (xs : List α) (m : Bool) :
-    xs.foldl (fun (s : Bool) (_ : α) => true) m = (m || !xs.isEmpty) := by
+    xs.foldl (fun (_ : Bool) (_ : α) => true) m = (m || !xs.isEmpty) := by
   cases xs with
   | nil => simp
   | cons x xs =>
